@@ -75,6 +75,7 @@ inductive Obs (α : Type) where
   | done
   | ks (l : List α) (raised : Bool)
   | verdict (b : Bool)
+  deriving DecidableEq
 
 /-- `list(parcor(f))` on coefficient lists -/
 def parcorObs (num den : List α) : Obs α :=
@@ -127,6 +128,10 @@ def run (h : Heap α) : List (Op α) → Heap α × List (Obs α)
     let r := step h op
     let rest := run r.1 ops
     (rest.1, r.2 :: rest.2)
+
+/-- the caller's loop `for i, c in enumerate(cs): f.numpoly[i] = c` -/
+def editItems (t : Nat) (p : Part) (cs : List α) : List (Op α) :=
+  ((List.range cs.length).map fun i => (i, cs.getD i 0)).map fun e => Op.set t p e.1 e.2
 
 /-- every live filter is bound to existing cells -/
 def Heap.wf (h : Heap α) : Prop :=
